@@ -6,6 +6,7 @@ import (
 	"fmt"
 	"io"
 	"log"
+	"math/rand"
 	"os"
 	"strings"
 )
@@ -67,6 +68,19 @@ func main() {
 		}
 		rep := o(*seed, *n, *tier, *work)
 		writeJSON(*out, rep)
+	case "case":
+		// vh case --comp X --case-seed S : print the driver line and the Go result of one generated case
+		fs := flag.NewFlagSet("case", flag.ExitOnError)
+		comp := fs.String("comp", "", "")
+		cs := fs.Int64("case-seed", 0, "")
+		tier := fs.String("tier", "quick", "")
+		fs.Parse(os.Args[2:])
+		args, run := components[*comp](rand.New(rand.NewSource(*cs)), *tier)
+		g := guard(func() interface{} { o, _ := run(); return o })
+		b, _ := json.Marshal(map[string]interface{}{"id": 1, "comp": *comp, "args": canon(args)})
+		fmt.Println(string(b))
+		b2, _ := json.Marshal(canon(g))
+		fmt.Println(string(b2))
 	case "list":
 		for k := range components {
 			fmt.Println(k)
